@@ -529,6 +529,9 @@ type CrashCfg struct {
 	Lazy           bool // record every workload of two or more ops a second time without waiting for the background rotation between calls
 	ExpandPerClass int  // per crash point and recovery outcome: expand the N images with fewest non-landed items and the N with fewest landed items (0 = all)
 	MaxFindings    int
+	// LeafHook, if set, runs on every distinct recovered image whose Open succeeded (m = what the recovery
+	// showed); its violations are reported with the path that produced the image.
+	LeafHook func(st *simdisk.State, cfg Config, m *Model) []Violation
 }
 
 type LeafRes struct {
@@ -633,6 +636,10 @@ func (e *CrashEngine) leaf(st *simdisk.State) *LeafRes {
 		lr.model = sr.Models[0]
 		if e.C.Cont {
 			lr.contOps, lr.contViol = e.continuation(st, lr.model)
+		}
+		if e.C.LeafHook != nil && len(lr.reopenViol) == 0 && len(lr.panicV) == 0 {
+			lr.panicV = append(lr.panicV, e.C.LeafHook(st, e.Cfg, lr.model)...)
+			e.Stats.Recoveries++
 		}
 	}
 	e.cache[h] = lr
